@@ -52,7 +52,7 @@ pub fn workload(schedules: u16) -> impl Strategy<Value = Workload> {
         1u32..=2,
         prop_oneof![Just(0usize), Just(1usize), Just(2usize)],
         prop_oneof![Just(1usize), Just(3usize), Just(64usize)],
-        0u8..3,
+        0u8..4,
         prop_oneof![3 => Just(0u8), 1 => 1u8..=3],
         prop_oneof![3 => Just(Sched::Random), 1 => (1u8..5).prop_map(Sched::Pct)],
         any::<u64>(),
@@ -82,6 +82,10 @@ fn catalog() -> Arc<Cat> {
     ns.clear();
     z.add(&apex.child(b"ns"), mr::T_A, 300, &[192, 0, 2, 1]);
     z.add(&apex.child(b"www"), mr::T_A, 300, &[192, 0, 2, 2]);
+    // 40 addresses: the answer does not fit a UDP response without EDNS (TC, no records)
+    for i in 0..40u8 {
+        z.add(&apex.child(b"big"), mr::T_A, 300, &[198, 18, 0, i]);
+    }
     catalog_of(vec![z.finish()])
 }
 
@@ -116,13 +120,16 @@ fn execution(w: &Workload, cat: &Arc<Cat>, agg: &Arc<Mutex<Agg>>) {
     let server = Arc::new(server);
     let limit = (w.rate * w.window) as u64;
 
-    let (qname, qtype) = match w.category {
+    // a response that is truncated anyway looks like a slipped one: counted only with slip 0
+    let category = if w.category == 3 && w.slip != 0 { 0 } else { w.category };
+    let (qname, qtype) = match category {
+        3 => (name("big.rl.test."), mr::T_A),
         0 => (name("www.rl.test."), mr::T_A),
         1 => (name("missing.rl.test."), mr::T_A),
         _ => (name("www.elsewhere.test."), mr::T_A),
     };
-    let expected_rcode = match w.category {
-        0 => 0u8,
+    let expected_rcode = match category {
+        0 | 3 => 0u8,
         1 => 3,
         _ => 5,
     };
@@ -172,7 +179,10 @@ fn execution(w: &Workload, cat: &Arc<Cat>, agg: &Arc<Mutex<Agg>>) {
                             Ok(d) => d,
                             Err(e) => oracle_fail("response-does-not-decode", &format!("{e:?}")),
                         };
-                        if d.header.tc {
+                        if d.header.tc && category == 3 {
+                            // the stream's ordinary response (slip is 0: nothing is slipped)
+                            Seen::Full
+                        } else if d.header.tc {
                             if !d.answers.is_empty() || !d.authority.is_empty() {
                                 oracle_fail("slipped-response-carries-records", &format!("{d:?}"));
                             }
@@ -265,7 +275,8 @@ pub fn oracle(w: &Workload, st: &mut Stats) -> Verdict {
         1 => "workloads-slip-1",
         _ => "workloads-slip-2",
     });
-    st.class(match w.category {
+    st.class(match if w.category == 3 && w.slip != 0 { 0 } else { w.category } {
+        3 => "workloads-stream-of-truncated-responses",
         0 => "workloads-noerror-stream",
         1 => "workloads-nxdomain-stream",
         _ => "workloads-error-stream",
